@@ -144,7 +144,7 @@ func Main(spec *Spec, tier string) int {
 			go func(sh int) {
 				defer wg.Done()
 				cmd := exec.Command(os.Args[0], "-shard", fmt.Sprintf("%d/%d", sh, nsh), "-deadline", fmt.Sprint(deadline.Unix()), spec.ID, tier)
-				cmd.Env = append(os.Environ(), "GOMAXPROCS=2")
+				cmd.Env = append(os.Environ(), "GOMAXPROCS=1")
 				cmd.Stderr = os.Stderr
 				po, _ := cmd.StdoutPipe()
 				pi, _ := cmd.StdinPipe()
